@@ -364,6 +364,9 @@ func policyAction(pol string, h dns.Header) dns.MsgAcceptAction {
 	return expectedDefault(h)
 }
 
+// oracleSink, when set, receives the verdicts of serveOracleIn instead of Viol.
+var oracleSink func(key, desc string)
+
 // serveOracle states the admission clauses of C14 on the observed event log.
 func serveOracle(tr, pol string, m []byte, ev []string, rec *recorder, path string) {
 	serveOracleIn(tr, pol, m, ev, rec, path, serveIn{tr, pol, Hx(m), strings.Join(ev, ";")})
@@ -373,7 +376,13 @@ func serveOracle(tr, pol string, m []byte, ev []string, rec *recorder, path stri
 // stream history for messages that arrive on a shared connection).
 func serveOracleIn(tr, pol string, m []byte, ev []string, rec *recorder, path string, in any) {
 	stat["serve_oracle_checked"]++
-	bad := func(key, desc string) { Viol("C14/Serve/"+key, path+": "+desc, in) }
+	bad := func(key, desc string) {
+		if oracleSink != nil { // verdicts collected by the caller (udpsize.go: real sockets, reported only when they repeat)
+			oracleSink("C14/Serve/"+key, path+": "+desc)
+			return
+		}
+		Viol("C14/Serve/"+key, path+": "+desc, in)
+	}
 	var nh, ninv int
 	var libWrites [][]byte
 	for _, e := range ev {
@@ -1494,6 +1503,8 @@ func runC14(r *Rng, tier string, n int) {
 	runServe(r, tier)
 	runStreams(r, tier)
 	runRdataBounds(r, tier)
+	runUDPSizes(r, tier)
+	runMuxReentrant(r, tier)
 	runMuxDirected()
 	runMuxCaseSweep()
 	runMux(r, tier)
